@@ -20,26 +20,31 @@ Definition bside_msgs (x : bpi) : list msg :=
 Definition pp_msgs (st : pp) : list msg := flat_map l_buf (p_levels st).
 
 Record places_ok (P : preds) (s : state) : Prop := mkPlaces {
-  po_q : forall d, Forall (PQ P d) (q_get d (g_q s));
-  po_pp : forall k x, pp_get k (g_pps s) = Some x -> Forall (PL P k) (pp_msgs (pr_st x));
+  po_q : forall d l, In (d, l) (g_q s) -> Forall (PQ P d) l;
+  po_pp : forall k x, In (k, x) (g_pps s) -> Forall (PL P k) (pp_msgs (pr_st x));
   po_bp : Forall (fun x => Forall (PB P) (bside_msgs x)) (g_bps s);
   po_rb : Forall (fun t => Forall (PB P) (rb_ms t)) (g_rbs s)
 }.
 
 (* ep, sqf: producer epoch and sequence counters read before the step *)
-(* G guards the partition worker's conditions: they are needed for CPp steps only *)
+(* the partition worker's conditions; ep, sqf: producer epoch and sequence counters read before the step *)
+Record transfers_pp (P : preds) (c : cfg) (ep : Z) (sqf : tpk -> Z) : Prop := mkTransfersPp {
+  tp_buf : forall t p m, PQ P (DPart t p) m -> PL P (t, p) m;
+  tp_fwd : forall t p b m, PQ P (DPart t p) m ->
+           PQ P (DBp b) (if c_idem c && fresh_pass m && is_data m then set_stamp m (sqf (t, p)) ep else m);
+  tp_flush : forall t p b m sq, PL P (t, p) m -> sqf (t, p) <= sq ->
+           PQ P (DBp b) (if c_idem c && fresh_pass m && is_data m && negb (m_hasseq m) then set_stamp m sq ep else m);
+  tp_marker : forall t p b r, PQ P (DBp b) (marker c t p F_SYN r) /\ PQ P (DBp b) (marker c t p F_FIN r)
+}.
+
+(* all conditions; G guards the partition worker's: they are needed for CPp steps only *)
 Record transfers (P : preds) (G : Prop) (c : cfg) (ep : Z) (sqf : tpk -> Z) : Prop := mkTransfers {
   t_disp : forall m sz h, PQ P DDisp m -> PQ P (DTopic (m_topic m)) (set_body m sz h);
   t_tp_fresh : forall t m, PQ P (DTopic t) m -> fresh_pass m = true -> 0 <= m_pres m ->
                PQ P (DPart (m_topic m) (m_pres m)) (set_part m (m_pres m));
   t_tp_old : forall t m, PQ P (DTopic t) m -> fresh_pass m = false -> PQ P (DPart (m_topic m) (m_part m)) m;
   t_retry : forall m, PQ P DRetry m -> PQ P DDisp m;
-  t_pp_buf : G -> forall t p m, PQ P (DPart t p) m -> PL P (t, p) m;
-  t_pp_fwd : G -> forall t p b m, PQ P (DPart t p) m ->
-             PQ P (DBp b) (if c_idem c && fresh_pass m && is_data m then set_stamp m (sqf (t, p)) ep else m);
-  t_pp_flush : G -> forall t p b m sq, PL P (t, p) m -> sqf (t, p) <= sq ->
-             PQ P (DBp b) (if c_idem c && fresh_pass m && is_data m && negb (m_hasseq m) then set_stamp m sq ep else m);
-  t_marker : G -> forall t p b r, PQ P (DBp b) (marker c t p F_SYN r) /\ PQ P (DBp b) (marker c t p F_FIN r);
+  t_pp : G -> transfers_pp P c ep sqf;
   t_bp_in : forall b m, PQ P (DBp b) m -> PB P m;
   t_bounce_q : forall b m, PQ P (DBp b) m -> PQ P DRetry (set_retries m (S (m_retries m)));
   t_bounce_b : forall m, PB P m -> PQ P DRetry (set_retries m (S (m_retries m)));
@@ -58,6 +63,37 @@ Definition eff_okP (P : preds) (e : effect) : Prop :=
   | _ => True
   end.
 
+Lemma q_get_in d q : q_get d q = [] \/ In (d, q_get d q) q.
+Proof.
+  induction q as [|[d' l] r IH]; cbn [q_get]; [left; reflexivity|].
+  destruct (dest_eqb d d') eqn:E; [apply dest_eqb_true in E; subst d'; right; left; reflexivity|].
+  destruct IH as [IH|IH]; [left; exact IH | right; right; exact IH].
+Qed.
+Lemma in_q_set d l q d' l' : In (d', l') (q_set d l q) -> (d' = d /\ l' = l) \/ In (d', l') q.
+Proof.
+  induction q as [|[d2 l2] r IH]; cbn [q_set]; intros H.
+  - destruct H as [H|[]]. injection H as <- <-. left; split; reflexivity.
+  - destruct (dest_eqb d d2) eqn:E.
+    + destruct H as [H|H]; [injection H as <- <-; apply dest_eqb_true in E; subst d2; left; split; reflexivity | right; right; exact H].
+    + destruct H as [H|H]; [right; left; exact H|]. destruct (IH H) as [G|G]; [left; exact G | right; right; exact G].
+Qed.
+Lemma q_get_ok P s d : (forall d l, In (d, l) (g_q s) -> Forall (PQ P d) l) -> Forall (PQ P d) (q_get d (g_q s)).
+Proof. intros H. destruct (q_get_in d (g_q s)) as [E|E]; [rewrite E; constructor | eapply H, E]. Qed.
+Lemma pp_get_in k l x : pp_get k l = Some x -> In (k, x) l.
+Proof.
+  induction l as [|[k' y] r IH]; cbn [pp_get]; [discriminate|]. destruct (tpk_eqb k k') eqn:E.
+  - intros H; injection H as ->. apply tpk_eqb_eq in E. subst k'. left; reflexivity.
+  - intros H. right. apply IH, H.
+Qed.
+Lemma in_pp_set k x l k' x' : In (k', x') (pp_set k x l) -> (k' = k /\ x' = x) \/ In (k', x') l.
+Proof.
+  induction l as [|[k2 y] r IH]; cbn [pp_set]; intros H.
+  - destruct H as [H|[]]. injection H as <- <-. left; split; reflexivity.
+  - destruct (tpk_eqb k k2) eqn:E.
+    + destruct H as [H|H]; [injection H as <- <-; apply tpk_eqb_eq in E; subst k2; left; split; reflexivity | right; right; exact H].
+    + destruct H as [H|H]; [right; left; exact H|]. destruct (IH H) as [G|G]; [left; exact G | right; right; exact G].
+Qed.
+
 Lemma places_same P s s' : g_q s' = g_q s -> g_pps s' = g_pps s -> g_bps s' = g_bps s -> g_rbs s' = g_rbs s ->
   places_ok P s -> places_ok P s'.
 Proof. intros E1 E2 E3 E4 [H1 H2 H3 H4]. constructor; rewrite ?E1, ?E2, ?E3, ?E4; assumption. Qed.
@@ -65,8 +101,8 @@ Proof. intros E1 E2 E3 E4 [H1 H2 H3 H4]. constructor; rewrite ?E1, ?E2, ?E3, ?E4
 Lemma places_push P s d m : places_ok P s -> PQ P d m -> places_ok P (set_q s (q_push d m (g_q s))).
 Proof.
   intros [H1 H2 H3 H4] Hm. constructor; cbn [set_q g_q g_pps g_bps g_rbs]; try assumption.
-  intros d'. rewrite q_get_push. destruct (dest_eqb d' d) eqn:E; [|apply H1].
-  apply dest_eqb_true in E. subst d'. apply Forall_app. split; [apply H1 | constructor; [exact Hm | constructor]].
+  intros d' l' Hin. unfold q_push in Hin. apply in_q_set in Hin as [[-> ->]|Hin]; [|eapply H1, Hin].
+  apply Forall_app. split; [apply q_get_ok, H1 | constructor; [exact Hm | constructor]].
 Qed.
 
 Lemma pp_get_set k k' x l : pp_get k' (pp_set k x l) = if tpk_eqb k' k then Some x else pp_get k' l.
@@ -84,8 +120,7 @@ Lemma places_set_handle P s w h : places_ok P s -> places_ok P (set_handle s w h
 Proof.
   intros H. unfold set_handle. destruct w; try exact H. destruct (pp_get k (g_pps s)) as [x|] eqn:E; [|exact H].
   destruct H as [H1 H2 H3 H4]. constructor; cbn [set_pps g_q g_pps g_bps g_rbs]; try assumption.
-  intros k' x'. rewrite pp_get_set. destruct (tpk_eqb k' k) eqn:Ek; [|apply H2].
-  intros E'. injection E' as <-. cbn [pr_st]. apply tpk_eqb_eq in Ek. subst k'. apply (H2 _ _ E).
+  intros k' x' Hin. apply in_pp_set in Hin as [[-> ->]|Hin]; [|eapply H2, Hin]. cbn [pr_st]. apply (H2 _ _ (pp_get_in _ _ _ E)).
 Qed.
 
 Lemma Forall_bp_upd' (Q : bpi -> Prop) i g l : Forall Q l -> (forall x, Q x -> Q (g x)) -> Forall Q (bp_upd i g l).
@@ -172,7 +207,7 @@ Variable c : cfg.
 Variable ep : Z.
 Variable sqf : tpk -> Z.
 Hypothesis T : transfers P G c ep sqf.
-Hypothesis HG : G.
+Hypothesis TP : transfers_pp P c ep sqf.
 
 Definition nosend (l : list effect) : bool :=
   forallb (fun e => match e with ESend _ _ | EBridge _ | ESpawnRB _ _ _ | ERbSend _ _ => false | _ => true end) l.
@@ -232,7 +267,7 @@ Lemma flush_sends_okP t p : forall buf sq, Forall (PL P (t, p)) buf -> sqf (t, p
   Forall (eff_okP P) (fst (flush_sends c t p sq ep buf)).
 Proof.
   induction buf as [|m r IH]; intros sq Hb Hs; cbn [flush_sends]; [constructor|]. inversion Hb as [|? ? Hm Hr]; subst.
-  pose proof (fun b => t_pp_flush _ _ _ _ _ T HG t p b m sq Hm Hs) as Hx.
+  pose proof (fun b => tp_flush _ _ _ _ TP t p b m sq Hm Hs) as Hx.
   destruct (c_idem c && fresh_pass m && is_data m && negb (m_hasseq m)).
   - specialize (IH (sq + 1) Hr ltac:(lia)). destruct (flush_sends c t p (sq + 1) ep r). cbn [fst] in *.
     constructor; [exact I|]. constructor; [exact Hx | exact IH].
@@ -242,7 +277,7 @@ Qed.
 Lemma leader_okP t p b : Forall (eff_okP P) (leader_effects c t p b).
 Proof.
   unfold leader_effects. constructor; [exact I|]. constructor; [exact I|]. constructor; [|constructor].
-  cbn [eff_okP]. intros b'. apply (t_marker _ _ _ _ _ T HG).
+  cbn [eff_okP]. intros b'. apply (tp_marker _ _ _ _ TP).
 Qed.
 
 Lemma in_levels_nth (Q : msg -> Prop) lv i : Forall Q (flat_map l_buf lv) -> Forall Q (l_buf (get_level i lv)).
@@ -297,7 +332,7 @@ Lemma pp_forward_okP t p st m stamp ls pre : PQ P (DPart t p) m -> snd stamp = e
   p_levels (fst (pp_forward c t p st m stamp ls pre)) = p_levels st.
 Proof.
   intros Hm He Hs Hp. unfold pp_forward.
-  pose proof (fun b => t_pp_fwd _ _ _ _ _ T HG t p b m Hm) as Hx. rewrite <- Hs, <- He in Hx.
+  pose proof (fun b => tp_fwd _ _ _ _ TP t p b m Hm) as Hx. rewrite <- Hs, <- He in Hx.
   assert (Hsend : forall (st' : pp) e, Forall (eff_okP P) e ->
     Forall (eff_okP P) (snd (if c_idem c && fresh_pass m && is_data m
        then (st', pre ++ e ++ [EStamp t p; ESend DCur (set_stamp m (fst stamp) (snd stamp))])
@@ -328,7 +363,7 @@ Proof.
     destruct (negb (p_has_bp st1)); [cbn [fst snd]; split; [exact Hl1 | apply okP_app; [exact He1 | apply nosend_ok; reflexivity]]|].
     match goal with |- context [pp_forward c t p ?st2 m stamp ls ?pre] =>
       destruct (pp_forward_okP t p st2 m stamp ls pre Hm He Hs) as [F1 F2] end.
-    { apply okP_app; [exact He1|]. constructor; [exact I|]. constructor; [cbn [eff_okP]; intros b; apply (t_marker _ _ _ _ _ T HG)|].
+    { apply okP_app; [exact He1|]. constructor; [exact I|]. constructor; [cbn [eff_okP]; intros b; apply (tp_marker _ _ _ _ TP)|].
       constructor; [exact I | constructor]. }
     split; [rewrite F2; cbn [p_levels]; apply levels_set_chaser, Hl1 | exact F1].
   - destruct (0 <? p_hwm st1)%nat.
@@ -336,7 +371,7 @@ Proof.
       * destruct (length (p_levels st1) <=? m_retries m)%nat; [cbn [fst snd]; split; [exact Hl1 | apply okP_app; [exact He1 | apply nosend_ok; reflexivity]]|].
         destruct (is_fin m); cbn [fst snd p_levels].
         -- split; [apply levels_set_chaser, Hl1 | apply okP_app; [exact He1 | apply nosend_ok; reflexivity]].
-        -- split; [apply levels_push; [apply (t_pp_buf _ _ _ _ _ T HG), Hm | exact Hl1] | exact He1].
+        -- split; [apply levels_push; [apply (tp_buf _ _ _ _ TP), Hm | exact Hl1] | exact He1].
       * destruct (is_fin m).
         -- destruct (flush_okP t p (p_hwm st1) (p_has_bp st1) (p_leader st1) (set_chaser (p_hwm st1) false (p_levels st1)) stamp ls
                        (levels_set_chaser _ _ _ _ Hl1) He ltac:(lia)) as [F1 F2].
@@ -562,10 +597,10 @@ Lemma pop_places d s m s1 : places_ok P s -> pop d s = Some (m, s1) ->
   PQ P d m /\ places_ok P s1 /\ g_epoch s1 = g_epoch s /\ g_seqs s1 = g_seqs s.
 Proof.
   intros H. unfold pop. destruct (q_get d (g_q s)) as [|m0 r] eqn:E; [discriminate|]. intros E'. injection E' as <- <-.
-  pose proof (po_q _ _ H d) as Hd. rewrite E in Hd. inversion Hd as [|? ? Hm Hr]; subst.
+  pose proof (q_get_ok P s d (po_q _ _ H)) as Hd. rewrite E in Hd. inversion Hd as [|? ? Hm Hr]; subst.
   split; [exact Hm|]. split; [|split; reflexivity].
   destruct H as [H1 H2 H3 H4]. constructor; cbn [set_q g_q g_pps g_bps g_rbs]; try assumption.
-  intros d'. rewrite q_get_set. destruct (dest_eqb d' d) eqn:Ed; [apply dest_eqb_true in Ed; subst d'; exact Hr | apply H1].
+  intros d' l' Hin. apply in_q_set in Hin as [[-> ->]|Hin]; [exact Hr | eapply H1, Hin].
 Qed.
 
 Lemma Forall_bp_upd_nth' (Q : bpi -> Prop) g : forall l i x, Forall Q l -> nth_error l i = Some x -> Q (g x) -> Forall Q (bp_upd i g l).
@@ -582,12 +617,11 @@ Lemma run_pp_places s k x m ls : places_ok P s -> Forall (PL P k) (pp_msgs (pr_s
 Proof.
   intros H Hx Hm T HG. unfold run_pp. destruct k as [t p]. cbn [fst snd] in *.
   match goal with |- context [pp_step c t p (pr_st x) m ?ab ?stamp ls] =>
-    destruct (pp_step_okP P G c (g_epoch s) (fun k => seq_get k (g_seqs s)) T HG t p (pr_st x) m ab stamp ls Hx Hm eq_refl eq_refl) as [F1 F2];
+    destruct (pp_step_okP P c (g_epoch s) (fun k => seq_get k (g_seqs s)) (t_pp _ _ _ _ _ T HG) t p (pr_st x) m ab stamp ls Hx Hm eq_refl eq_refl) as [F1 F2];
     destruct (pp_step c t p (pr_st x) m ab stamp ls) as [st' effs] end.
   cbn [fst snd] in *. apply apply_effs_places; [|exact F2].
   destruct H as [H1 H2 H3 H4]. constructor; cbn [set_pps g_q g_pps g_bps g_rbs]; try assumption.
-  intros k' x'. rewrite pp_get_set. destruct (tpk_eqb k' (t, p)) eqn:E; [|apply H2].
-  intros E'. injection E' as <-. apply tpk_eqb_eq in E. subst k'. exact F1.
+  intros k' x' Hin. apply in_pp_set in Hin as [[-> ->]|Hin]; [exact F1 | eapply H2, Hin].
 Qed.
 
 Lemma run_bp_places s b x i : places_ok P s -> nth_error (g_bps s) b = Some x -> tr_at s ->
@@ -625,12 +659,12 @@ Lemma tr_at_same s s' : g_epoch s' = g_epoch s -> g_seqs s' = g_seqs s -> tr_at 
 Proof. unfold tr_at. intros -> ->. auto. Qed.
 
 Lemma raw_step_places s ch : places_ok P s -> tr_at s -> (forall t p ls, ch = CPp t p ls -> G) ->
-  (forall x, ch = CSubmit x -> PQ P DDisp (fresh_of x)) -> PQ P DDisp (shutdown_marker c) ->
+  (forall x, ch = CSubmit x -> g_close_req s = false -> PQ P DDisp (fresh_of x)) -> PQ P DDisp (shutdown_marker c) ->
   places_ok P (raw_step c s ch).
 Proof.
   intros H T HGc Hsub Hshut. destruct ch; cbn [raw_step].
-  - (* CSubmit *) destruct (g_close_req s); [exact H|].
-    eapply places_same; [| | | |apply (places_push P s DDisp (fresh_of m) H (Hsub m eq_refl))]; reflexivity.
+  - (* CSubmit *) destruct (g_close_req s) eqn:Ecr; [exact H|].
+    eapply places_same; [| | | |apply (places_push P s DDisp (fresh_of m) H (Hsub m eq_refl eq_refl))]; reflexivity.
   - (* CAsyncClose *) destruct (g_close_req s); [exact H|].
     assert (H1 : places_ok P (set_flags s true (g_woken s) (g_closed s))) by (eapply places_same; [| | | |exact H]; reflexivity).
     eapply places_same; [| | | |apply (places_push P _ DDisp (shutdown_marker c) H1 Hshut)]; reflexivity.
@@ -645,20 +679,20 @@ Proof.
     destruct (pop (DPart t p) s) as [[m s1]|] eqn:E; [|exact H]. destruct (pop_places _ _ _ _ H E) as [Hm [H1 [E1 E2]]].
     assert (T1 : tr_at s1) by (eapply tr_at_same; eassumption).
     pose proof (HGc t p ls eq_refl) as HG.
-    destruct (pp_get (t, p) (g_pps s1)) as [x|] eqn:Ex; [apply run_pp_places; [exact H1 | apply (po_pp _ _ H1 _ _ Ex) | exact Hm | exact T1 | exact HG]|].
+    destruct (pp_get (t, p) (g_pps s1)) as [x|] eqn:Ex; [apply run_pp_places; [exact H1 | apply (po_pp _ _ H1 _ _ (pp_get_in _ _ _ Ex)) | exact Hm | exact T1 | exact HG]|].
     destruct (next_lres ls) as [l0 ls'].
-    destruct (pp_init_okP P G c _ _ T1 HG t p l0) as [Q0 Q1].
+    destruct (pp_init_okP P c _ _ (t_pp _ _ _ _ _ T1 HG) t p l0) as [Q0 Q1].
     pose proof (pp_init_txn (WPp (t, p)) (set_pps s1 (pp_set (t, p) (mkPpr (fst (pp_init c t p l0)) None) (g_pps s1))) t p l0) as [X1 X2].
     destruct (pp_init c t p l0) as [st0 effs0]. cbn [fst snd] in *.
     set (s2 := set_pps s1 (pp_set (t, p) (mkPpr st0 None) (g_pps s1))) in *.
     assert (H2 : places_ok P s2).
     { destruct H1 as [A1 A2 A3 A4]. constructor; cbn [s2 set_pps g_q g_pps g_bps g_rbs]; try assumption.
-      intros k' x'. rewrite pp_get_set. destruct (tpk_eqb k' (t, p)); [|apply A2]. intros E'. injection E' as <-. cbn [pr_st]. rewrite Q1. constructor. }
+      intros k' x' Hin. apply in_pp_set in Hin as [[-> ->]|Hin]; [cbn [pr_st]; rewrite Q1; constructor | eapply A2, Hin]. }
     pose proof (apply_effs_places P c (WPp (t, p)) effs0 s2 H2 Q0) as H3.
     set (s3 := apply_effs c (WPp (t, p)) s2 effs0) in *.
     assert (T3 : tr_at s3) by (eapply tr_at_same; [exact X1 | exact X2 | exact T1]).
     apply run_pp_places; [exact H3 | | exact Hm | exact T3 | exact HG].
-    destruct (pp_get (t, p) (g_pps s3)) as [x|] eqn:Ex3; [apply (po_pp _ _ H3 _ _ Ex3) | cbn [pr_st]; rewrite Q1; constructor].
+    destruct (pp_get (t, p) (g_pps s3)) as [x|] eqn:Ex3; [apply (po_pp _ _ H3 _ _ (pp_get_in _ _ _ Ex3)) | cbn [pr_st]; rewrite Q1; constructor].
   - (* CBpRecv *)
     destruct (nth_error (g_bps s) b) as [x|] eqn:En; [|exact H]. destruct (flush_poll (i_st x)); [|exact H].
     destruct (pop (DBp b) s) as [[m s1]|] eqn:E.
@@ -711,7 +745,7 @@ Proof.
 Qed.
 
 Theorem step_places s ch : places_ok P s -> tr_at s -> (forall t p ls, ch = CPp t p ls -> G) ->
-  (forall x, ch = CSubmit x -> PQ P DDisp (fresh_of x)) -> PQ P DDisp (shutdown_marker c) ->
+  (forall x, ch = CSubmit x -> g_close_req s = false -> PQ P DDisp (fresh_of x)) -> PQ P DDisp (shutdown_marker c) ->
   places_ok P (step c s ch).
 Proof.
   intros H T HGc H1 H2. unfold step. destruct (g_panic s); [exact H|].
